@@ -42,7 +42,8 @@ SPECS = {
                 floor=0.30,
                 rule="(a) all 14x14 ordered type pairs x 3 sign modes enumerated with maximally overlapping instances (every same-named field copied onto the minimal valid instance of the other type; the minimal and generated base instances); (b) rapid-generated near-collision pairs: same fields under another type, a character moved between adjacent string fields, independent messages of the same / any type; oracle: equal sign bytes (direct, direct-aux, legacy amino JSON through the app's SignModeHandler) imply equal type URL and equal protobuf bytes, asserted when both messages pass stateless validation, plus recomputation with a fresh encoding configuration; non-trivial = the two messages differ and both pass stateless validation; distinct = distinct (type, proto) pair",
                 assumptions=["the SDK sign-mode handlers and protobuf/amino codecs", "PNFT messages cannot be signed in legacy amino JSON at all (they do not implement the legacy message interface; the SDK refuses them), counted as 'mode unusable'"]),
-    "C16": dict(units=[dict(test="TestC16", quick=200000, thorough=6000000, timeout=1800), machine("TestC16Pipeline", 320, 5000, steps=30)],
+    "C16": dict(units=[dict(test="TestC16", quick=200000, thorough=6000000, timeout=1800), machine("TestC16Pipeline", 320, 5000, steps=30),
+                       dict(test="TestC16Charset", kind="plain", quick=1, thorough=1)],
                 floor=0.20,
                 rule="(1) boundary-directed messages of all 14 types, evaluated after a protobuf marshal/unmarshal round trip: byte lengths {0,1,max-1,max,max+1,2*max} built from 1-4 byte runes, control characters and invalid UTF-8; charset edges; DIDs with 31/32/44/45 base58 characters, excluded characters, wrong method, upper-case prefix, trailing newline; documents built from valid parts with 0-2 injected defects out of 45; address pool (valid, upper-case, 1- and 255-byte, wrong prefix, bad checksum, mixed case, empty, blank, 256-byte); oracle = independent re-implementation of the documented limits, ValidateBasic()==nil iff oracle accepts, three classes generated but not asserted (document without id, present-but-empty @context, non-ASCII white space in method ids); non-trivial = at most one field off its valid class and the verdict is asserted. (2) the pipeline half: see TestC16Pipeline's rule in the label distribution",
                 assumptions=["sdk.AccAddressFromBech32 decides address well-formedness (SDK, trusted)", "protobuf wire encoding of the generated types"]),
